@@ -26,12 +26,18 @@ import (
 	"github.com/LemoFoundationLtd/lemochain-core/common"
 )
 
+// c02AcceptHook: the current state's record of accepted hashes (set by c02NewStateN).
+var c02AcceptHook func(common.Hash)
+
 func c02InsertVerdict(n *Node, b *types.Block) (string, string) {
 	consensus.VerifSetSigCache(common.Hash{}, nil) // see runCase: one process, several identities
 	return SafeMsg(func() string {
 		err := n.Insert(CloneBlock(b))
 		switch err {
 		case nil:
+			if c02AcceptHook != nil {
+				c02AcceptHook(b.Hash())
+			}
 			return "ok"
 		case consensus.ErrIgnoreBlock:
 			return "ignored"
@@ -60,7 +66,7 @@ func c02SaveFaultProbe(c *Ctx) {
 	for i := 0; i < 2; i++ {
 		s.txSeq++
 		txs := types.Transactions{txTransfer(w.FounderKey, keyAddr(s.users[0]), lemo(1000), TxOpt{Exp: uint64(t) + 60, Msg: fmt.Sprintf("sf-%d", s.txSeq)})}
-		blk, _, err := n.Build(parent, t, txs, nil)
+		blk, _, err := s.build(parent, t, txs, nil)
 		if err != nil {
 			c.Fail("c02/harness/build", "save-fault probe: "+err.Error(), nil)
 			return
@@ -81,7 +87,7 @@ func c02SaveFaultProbe(c *Ctx) {
 	// the victim: a valid block with enough confirms to become stable on arrival
 	s.txSeq++
 	txs := types.Transactions{txTransfer(w.FounderKey, keyAddr(s.users[1]), lemo(500), TxOpt{Exp: uint64(t) + 60, Msg: fmt.Sprintf("sf-%d", s.txSeq)})}
-	blk, _, err := n.Build(parent, t, txs, nil)
+	blk, _, err := s.build(parent, t, txs, nil)
 	if err != nil {
 		c.Fail("c02/harness/build", "save-fault probe: "+err.Error(), nil)
 		return
@@ -157,7 +163,7 @@ func c02ConcurrentProbe(c *Ctx) {
 	for i := 0; i < rounds; i++ {
 		s.txSeq++
 		txs := types.Transactions{txTransfer(w.FounderKey, keyAddr(s.users[i%3]), lemo(10), TxOpt{Exp: uint64(t) + 60, Msg: fmt.Sprintf("cc-%d", s.txSeq)})}
-		blk, _, err := n.Build(parent, t, txs, nil)
+		blk, _, err := s.build(parent, t, txs, nil)
 		if err != nil {
 			c.Fail("c02/harness/build", "concurrent probe: "+err.Error(), nil)
 			return
@@ -289,7 +295,7 @@ func c02TxWellFormed(tx *types.Transaction) string {
 // malformedFamily: blocks assembled by the MINER path (which does not call VerifyTxBody) around one tx that
 // breaks exactly one well-formedness rule: fully consistent roots, signed in turn, so only verifyTxs can reject them.
 func (s *c02State) malformedFamily(parent *types.Block, t uint32, txs types.Transactions, probe types.Transactions) int {
-	c, n, w := s.c, s.n, s.w
+	c, w := s.c, s.w
 	s.txSeq++
 	exp := uint64(t) + 60
 	to := keyAddr(s.users[1])
@@ -316,7 +322,7 @@ func (s *c02State) malformedFamily(parent *types.Block, t uint32, txs types.Tran
 			return signTx(types.NewTransaction(keyAddr(w.FounderKey), to, big.NewInt(0), 2000000, oneGwei, nil, params.ModifySignersTx, nodeChainID, exp, "", msg), w.FounderKey)
 		case "box-sub-chain-id":
 			sub := signTx(types.NewTransaction(keyAddr(w.FounderKey), to, lemo(1), 2000000, oneGwei, nil, params.OrdinaryTx, nodeChainID+1, exp, "", msg), w.FounderKey)
-			return txBox(w.FounderKey, types.Transactions{sub}, TxOpt{Exp: exp, Msg: msg + "-box"})
+			return s.box(w.FounderKey, types.Transactions{sub}, TxOpt{Exp: exp, Msg: msg + "-box"})
 		}
 		return nil
 	}
@@ -328,7 +334,7 @@ func (s *c02State) malformedFamily(parent *types.Block, t uint32, txs types.Tran
 		return 0
 	}
 	list := append(append(types.Transactions{}, txs...), tx)
-	db, _, err := n.Build(parent, t, list, nil)
+	db, _, err := s.build(parent, t, list, nil)
 	if err != nil {
 		return 0
 	}
@@ -361,10 +367,10 @@ func Safe2(f func() *types.Transaction) (tx *types.Transaction) {
 // candidateStep returns the next transaction of the candidates' life cycle, read from the account state at
 // `parent`: fund -> register (deposit 5,000,000 LEMO => top of the ranking) during term 0; candidate 0 resigns
 // during term 1. At most one step per block.
-func (s *c02State) candidateStep(parent *types.Block, cands []*ecdsa.PrivateKey, t uint32) *types.Transaction {
+func (s *c02State) candidateStep(parent *types.Block, cands []*ecdsa.PrivateKey, t uint32) (*types.Transaction, string, int) {
 	h := parent.Height() + 1
 	if h < 2 {
-		return nil
+		return nil, "", 0
 	}
 	am := account.NewManager(parent.Hash(), s.n.DB)
 	opt := func(m string) TxOpt {
@@ -377,16 +383,16 @@ func (s *c02State) candidateStep(parent *types.Block, cands []*ecdsa.PrivateKey,
 		switch {
 		case acc.GetBalance().Sign() == 0 && isCand == "" && h < params.TermDuration-2:
 			s.c.Count("cand:fund")
-			return txTransfer(s.w.FounderKey, keyAddr(k), lemo(int64(6000000+1000000*int64(i))), opt("fund"))
+			return txTransfer(s.w.FounderKey, keyAddr(k), lemo(int64(6000000+1000000*int64(i))), opt("fund")), "fund", i
 		case acc.GetBalance().Cmp(lemo(5000000)) > 0 && isCand == "" && h < params.TermDuration-1:
 			s.c.Count("cand:register")
-			return txRegister(k, lemo(int64(5000000+500000*int64(i))), k, false, nil, opt("reg"))
+			return txRegister(k, lemo(int64(5000000+500000*int64(i))), k, false, nil, opt("reg")), "register", i
 		case i == 0 && isCand == types.IsCandidateNode && h > params.TermDuration+params.InterimDuration+2 && h < 2*params.TermDuration-1:
 			s.c.Count("cand:resign")
-			return txRegister(k, big.NewInt(0), k, true, nil, opt("unreg"))
+			return txRegister(k, big.NewInt(0), k, true, nil, opt("unreg")), "resign", i
 		}
 	}
-	return nil
+	return nil, "", 0
 }
 
 // c02SubsNearBox: the fed flag is VerifyTxBody(chainID, timestamp := tx.Expiration()), so for a box it also
@@ -428,7 +434,7 @@ func c02DuplicateNodeIDProbe(c *Ctx) {
 	parent := n.BC.CurrentBlock()
 	t := parent.Time() + 1
 	step := func(txs types.Transactions, key *ecdsa.PrivateKey) (string, *types.Block) {
-		blk, _, err := n.Build(parent, t, txs, key)
+		blk, _, err := s.build(parent, t, txs, key)
 		if err != nil {
 			return "build:" + err.Error(), nil
 		}
@@ -483,7 +489,7 @@ func c02DuplicateNodeIDProbe(c *Ctx) {
 		if err != nil || addr != keyAddr(d0) {
 			continue
 		}
-		blk, _, err := n.Build(parent, tt, nil, d0) // PrepareHeader names whatever GetMyMinerAddress says
+		blk, _, err := s.build(parent, tt, nil, d0) // PrepareHeader names whatever GetMyMinerAddress says
 		if err != nil {
 			own = "build:" + err.Error()
 			break
@@ -492,7 +498,7 @@ func c02DuplicateNodeIDProbe(c *Ctx) {
 		v1, _ := c02InsertVerdict(n, blk)
 		m := CloneBlock(blk)
 		m.Header.MinerAddress = keyAddr(d0)
-		Resign(m, d0)
+		s.resign(m, d0)
 		v2, _ := c02InsertVerdict(n, m)
 		own = fmt.Sprintf("D0's node builds a block naming %s as miner (its own address is %s): %s; the same block naming D0's own address: %s", named.String(), keyAddr(d0).String(), v1, v2)
 	}
@@ -504,7 +510,7 @@ func c02DuplicateNodeIDProbe(c *Ctx) {
 		if err != nil || addr != keyAddr(xk) {
 			continue
 		}
-		if blk, _, err := n.Build(parent, tt, nil, d0); err == nil {
+		if blk, _, err := s.build(parent, tt, nil, d0); err == nil {
 			v, _ := c02InsertVerdict(n, blk)
 			squat = fmt.Sprintf("block signed by D0's node key naming %s: %s", blk.MinerAddress().String(), v)
 		}
@@ -610,7 +616,7 @@ func c02RestartFamily(c *Ctx) {
 	t := parent.Time() + 1
 	// stable: an honest block with the confirms of all other deputies, inserted directly
 	stable := func(txs types.Transactions) *types.Block {
-		blk, _, err := n.Build(parent, t, txs, nil)
+		blk, _, err := s.build(parent, t, txs, nil)
 		if err != nil {
 			c.Fail("c02/harness/build", "restart family: "+err.Error(), nil)
 			return nil
@@ -636,7 +642,7 @@ func c02RestartFamily(c *Ctx) {
 		return txTransfer(w.FounderKey, keyAddr(s.users[s.txSeq%3]), lemo(int64(100+s.txSeq)), TxOpt{Exp: uint64(t) + 1500, Msg: fmt.Sprintf("rs-%s-%d", tag, s.txSeq)})
 	}
 	offer := func(label string, txs types.Transactions, key *ecdsa.PrivateKey) string {
-		blk, _, err := n.Build(parent, t, txs, key)
+		blk, _, err := s.build(parent, t, txs, key)
 		if err != nil {
 			c.Count("restart:cannot-build")
 			return ""
@@ -694,10 +700,10 @@ func c02RestartFamily(c *Ctx) {
 		offer(fmt.Sprintf("replay-of-ancestor-tx e=%d", e)+seq, types.Transactions{T}, nil)
 		offer(fmt.Sprintf("replay-of-ancestor-tx-among-fresh e=%d", e)+seq, types.Transactions{mkTx("fresh"), T}, nil)
 		offer(fmt.Sprintf("replay-of-older-ancestor-tx e=%d", e)+seq, types.Transactions{older}, nil)
-		offer(fmt.Sprintf("replay-inside-box e=%d", e)+seq, types.Transactions{txBox(w.FounderKey, types.Transactions{T}, TxOpt{Exp: T.Expiration(), Msg: fmt.Sprintf("rs-box-%d", s.txSeq)})}, nil)
+		offer(fmt.Sprintf("replay-inside-box e=%d", e)+seq, types.Transactions{s.box(w.FounderKey, types.Transactions{T}, TxOpt{Exp: T.Expiration(), Msg: fmt.Sprintf("rs-box-%d", s.txSeq)})}, nil)
 		// a few ordinary mutants of an honest block against the restarted node
 		fresh := mkTx("honest")
-		if hb, _, err := n.Build(parent, t, types.Transactions{fresh}, nil); err == nil {
+		if hb, _, err := s.build(parent, t, types.Transactions{fresh}, nil); err == nil {
 			s.honestGL[hb.ParentHash()] = hb.GasLimit()
 			s.honestDR[hb.ParentHash()] = fmt.Sprintf("%x", hb.DeputyRoot())
 			hk := w.KeyOfMiner(hb.MinerAddress())
